@@ -12,13 +12,13 @@ from vlib.static import serve_static, record_opens
 ID = 'C16'
 LEVEL = 'exploration'
 RULE = ('a real tree is built per run: base/{top.txt, root/{f.txt, .hidden, "we ird.txt", "a\\\\b.txt", sub/{g.txt, deep/h.txt}}, root2/decoy.txt, '
-        'rootx/secret.txt, root_backup/secret.txt, other/secret.txt, case-variant twins Root/ and ROOT/, a second site site2/ with the same relative layout, a mirror tree backup/<absolute path of the root>/ beside the root and one inside it}. case = (root spelling: absolute, with trailing separator(s), relative to the '
+        'rootx/secret.txt, root_backup/secret.txt, other/secret.txt, decoy FILES beside / above each root whose name is a proper string prefix of the name of the root directory or of one of its ancestors (roo, r, root/su beside root/sub, ~/stat beside ~/static, $HOM, srv:8080/pu, srv:80, site beside site2), case-variant twins Root/ and ROOT/, a second site site2/ with the same relative layout, a mirror tree backup/<absolute path of the root>/ beside the root and one inside it}. case = (root spelling: absolute, with trailing separator(s), relative to the '
         'working directory (which alternates between base and base/site2 from request to request), with a dot-dot detour, the nested root root/sub, the working directory itself spelled as the empty string, dot or dot-slash, and directories literally called ~, ~/static, $HOME, ~user in the working directory while HOME points at a decoy tree; file name = prefix in {"", "/", "\\\\", "//", absolute base, absolute '
         'root, "/etc/"} + 1-6 segments from {file and directory names of the tree, ".", "..", "", "...", sibling directory names, "passwd", NUL '
         'segment} joined by separators from {"/", "\\\\", "//", "/./", "\\\\\\\\"} + optional trailing separator), served by static_file from a handler '
         'of the default application. Oracle: independent string normalisation of the location (POSIX reading and backslash-as-separator reading); '
         'status 200 => the body equals the content of the file at a normalised location inside the root; any other outcome is 403 or 404; and the '
-        'audit-hook log of every open() during the request contains no path of the tree (or /etc/passwd) outside the root. Plus two concurrent static_file calls (one legitimate, one leaving the root) under every single-preemption schedule. Non-trivial = the name '
+        'audit-hook log of every open() during the request contains no path of the tree (or /etc/passwd) outside the root. Plus sequences of requests on one root (one or two spellings of it) over a small tree of its own that changes between the requests the way a deployment changes it (root directory moved aside to root.old and a fresh one created under its name, new one built beside and swapped in by two renames, removed and re-created, previous one moved back, the same for a directory below the root, files replaced by rename): every request is judged against the tree as it is at that moment, nothing of root.old may be served. Plus two concurrent static_file calls (one legitimate, one leaving the root) under every single-preemption schedule. Non-trivial = the name '
         'has a dot-dot segment, a backslash, an absolute prefix or a sibling-directory segment; distinct by (root spelling, name).')
 ASSUMPTIONS = ['POSIX file system, no symbolic links in the tree', 'observation of file opens is the interpreter audit event "open" (covers open, io.open, os.open)',
                'the property is one-directional (what may be served); how many names were served is reported as a stratum, not required']
@@ -37,12 +37,20 @@ FILES = {
     'root\\secret.txt': b'BACKSLASH-SIBLING-DECOY', 'root\\sub\\g.txt': b'BACKSLASH-SIBLING-DECOY 2', 'root /secret.txt': b'BLANK-SIBLING-DECOY', 'root./secret.txt': b'DOT-SIBLING-DECOY',
     # a directory whose name holds the path-list separator (host:port style), with same-named decoys in the directory before the colon
     'srv:8080/pub/f.txt': b'colon f', 'srv:8080/pub/sub/g.txt': b'colon g', 'srv/f.txt': b'SRV-DECOY f', 'srv/sub/g.txt': b'SRV-DECOY g', '8080/pub/f.txt': b'PORT-DECOY f',
+    # FILES beside / above a root whose name is a proper string prefix of the root directory's (or of one of its ancestors') name:
+    # the mirror image of the siblings that extend the root's name
+    'roo': b'ROOT-NAME-PREFIX-DECOY roo', 'r': b'ROOT-NAME-PREFIX-DECOY r', 'root/su': b'inside root, beside root/sub: su', 'root/s': b'inside root, beside root/sub: s',
+    '~/stat': b'inside ~, beside ~/static: stat', '~/s': b'inside ~, beside ~/static: s', '$HOM': b'DOLLAR-PREFIX-DECOY', '$': b'DOLLAR-PREFIX-DECOY 2', '~nobody': b'TILDE-USER-PREFIX-DECOY',
+    'srv:8080/pu': b'COLON-PREFIX-DECOY pu', 'srv:8080/p': b'COLON-PREFIX-DECOY p', 'srv:80': b'COLON-PREFIX-DECOY above', 'sr': b'COLON-PREFIX-DECOY above 2',
+    'site': b'SITE-PREFIX-DECOY', 'site2/roo': b'SITE2-ROOT-NAME-PREFIX-DECOY', 'site2/root/su': b'site2 inside root, beside root/sub',
     'site2/root/f.txt': b'site2 f', 'site2/root/sub/g.txt': b'site2 g', 'site2/top.txt': b'SITE2-TOP-DECOY', 'site2/root2/decoy.txt': b'SITE2-ROOT2-DECOY',
 }
 SEGS = ['Root', 'ROOT', 'SUB', 'Deep', 'F.TXT', 'f.txt', 'sub', 'g.txt', 'deep', 'h.txt', '.hidden', 'we ird.txt', 'a\\b.txt', '.', '..', '..', '..', '', '...', 'root', 'root2', 'rootx', 'root_backup',
         'other', 'decoy.txt', 'secret.txt', 'top.txt', 'passwd', 'etc', 'a', 'b.txt', '\0', 'nofile',
         # dot-dot with a control character inside / beside it (a name filter that drops such characters would turn these into '..')
-        '.\0.', '..\n', '\r..', '.\r.', '..\0', '.\n.', '\0..', '. .', '.\t.', '..;', '%2e%2e', '.%00.']
+        '.\0.', '..\n', '\r..', '.\r.', '..\0', '.\n.', '\0..', '. .', '.\t.', '..;', '%2e%2e', '.%00.',
+        # names that are a proper string prefix of a root directory's name (files of that name exist beside / above the roots)
+        'roo', 'roo', 'r', 'su', 's', 'stat', '$HOM', '$', '~nobody', 'pu', 'p', 'srv:80', 'sr', 'site', 'ro']
 SEPS = ['/', '/', '/', '\\', '\\', '//', '/./', '\\\\', '/\\', '\\/']
 ROOTS = ['abs', 'abs/', 'abs//', 'rel', './rel', 'rel/', 'detour', 'nested', 'nested/', 'abs/.', 'rel\\', '~', '~/', './~', '~/static', '$HOME', '~nobody-verif', 'empty', 'dot', 'dot/', 'colon', 'colon_rel', 'colon/']
 PREFIXES = ['', '', '', '/', '\\', '//', '../', '..\\', '<base>/', '<root>/', '/etc/', './', '<base>', '/../', '../backup<root>/', '../../backup<root>/', 'mirror<root>/', '../backup<base>/']
@@ -141,6 +149,8 @@ def case_st(draw):
 
 def check_case(ctx, case):
     base = tree()
+    if case.get('sub'):
+        base = base + '/' + case['sub']             # the small tree of check_sequence, which is rebuilt / changed between requests
     cwd = base + ('/' + case['cwd'] if case.get('cwd') else '')
     os.chdir(cwd)                                   # the working directory changes between requests
     root_arg, R = root_of(case['root'], base, cwd)
@@ -193,12 +203,118 @@ def check_case(ctx, case):
     for flag, k in ((dd, 'dotdot'), (bs, 'backslash'), (ab, 'absolute_prefix'), (sib, 'sibling_or_decoy_segment'), (not inside(L1, R), 'location_outside_root'),
                     (not inside(L1, R) and os.path.isfile(L1), 'location_is_existing_outside_file'),
                     (not inside(L2, R) and L2 != L1 and os.path.isfile(L2), 'backslash_reading_is_existing_outside_file'),
-                    (L1.startswith(R) and not inside(L1, R) and L1 != R, 'sibling_sharing_root_prefix')):
+                    (L1.startswith(R) and not inside(L1, R) and L1 != R, 'sibling_sharing_root_prefix'),
+                    (R.startswith(L1) and L1 != R and not (R + '/').startswith(L1.rstrip('/') + '/'), 'location_is_string_prefix_of_root_path'),
+                    (R.startswith(L1) and L1 != R and not (R + '/').startswith(L1.rstrip('/') + '/') and os.path.isfile(L1), 'existing_outside_file_named_like_a_prefix_of_the_root_name')):
         if flag:
             ctx.count(k)
     ctx.count('root_' + case['root'])
     if dd or bs or ab or sib:
         ctx.nontrivial(case['root'] + '|' + case['name'], sample=case)
+    return r.code
+
+
+SEQ_ROOTS = ['abs', 'abs/', 'abs//', 'rel', './rel', 'rel/', 'detour', 'nested', 'nested/', 'abs/.']
+SEQ_OPS = ['deploy', 'deploy_swap', 'recreate', 'rollback', 'subdir', 'subdir_moved_out', 'rewrite']
+SEQ_NAMES = ['f.txt', 'sub/g.txt', 'g.txt', 'only_<n>.txt', 'only_<n-1>.txt', 'sub/only_<n>.txt', '../root.old/f.txt', '../root.old/only_<n-1>.txt', '../../root.old/sub/g.txt', '../sub.old/g.txt',
+             '../top.txt', 'sub/../f.txt', '../root/f.txt', '..\\root.old\\f.txt', '../sub_moved/g.txt', '../../sub_moved/g.txt']
+
+
+def _write(path, data):
+    os.makedirs(os.path.dirname(path), exist_ok=True)
+    with open(path, 'wb') as f:
+        f.write(data)
+
+
+def _release(d, n):
+    """contents of release n of the root directory, written to directory d (every release has other bytes under the same names, and one name of its own)"""
+    _write(d + '/f.txt', b'release %d: f' % n)
+    _write(d + '/sub/g.txt', b'release %d: g ' % n + b'x' * n)
+    _write(d + '/sub/deep/h.txt', b'release %d: h' % n)
+    _write(d + '/only_%d.txt' % n, b'only in release %d' % n)
+    _write(d + '/sub/only_%d.txt' % n, b'sub, only in release %d' % n)
+
+
+def check_sequence(ctx, case):
+    """Requests on one root with changes of the tree in between, the way a deployment makes them: the root directory (or a directory below it) is moved aside and a
+    fresh one takes over its name, is removed and re-created, the previous one is moved back, a file is replaced by rename. Every request is judged by check_case
+    against the tree as it is at that moment: what is served are the bytes of the file at the normalised location inside the (current) root; the moved-away
+    directory root.old is a sibling that extends the root's name and nothing of it may be served."""
+    top = tree()
+    sb = top + '/seq'
+    os.chdir(top)
+    shutil.rmtree(sb, ignore_errors=True)
+    R = sb + '/root'
+    n = 1
+    _release(R, n)
+    for rel, data in (('top.txt', b'SEQ-TOP-DECOY'), ('secret.txt', b'SEQ-SECRET-DECOY'), ('root2/decoy.txt', b'SEQ-ROOT2-DECOY'), ('root2/f.txt', b'SEQ-ROOT2-F-DECOY')):
+        _write(sb + '/' + rel, data)
+    changed = False
+    try:
+        for step in case['seq']:
+            op = step[0]
+            if op == 'get':
+                name = step[2].replace('<n>', str(n)).replace('<n-1>', str(n - 1))
+                code = check_case(ctx, {'root': step[1], 'name': name, 'cwd': '', 'sub': 'seq'})
+                if changed:
+                    ctx.count('request_after_the_tree_changed')
+                    if code == 200:
+                        ctx.count('served_200_after_the_root_directory_or_a_part_of_it_was_replaced')
+                continue
+            os.chdir(top)
+            if op in ('deploy', 'deploy_swap'):
+                n += 1
+                shutil.rmtree(R + '.old', ignore_errors=True)
+                if op == 'deploy':                  # move the live directory aside, then fill a fresh one
+                    os.rename(R, R + '.old')
+                    _release(R, n)
+                else:                               # build the new one beside it, then two renames
+                    shutil.rmtree(R + '.new', ignore_errors=True)
+                    _release(R + '.new', n)
+                    os.rename(R, R + '.old')
+                    os.rename(R + '.new', R)
+            elif op == 'recreate':
+                n += 1
+                shutil.rmtree(R)
+                _release(R, n)
+            elif op == 'rollback':
+                if not os.path.isdir(R + '.old'):
+                    continue
+                shutil.rmtree(R + '.new', ignore_errors=True)
+                os.rename(R, R + '.new')
+                os.rename(R + '.old', R)
+                n -= 1
+            elif op in ('subdir', 'subdir_moved_out'):
+                n += 1
+                dst = R + '/sub.old' if op == 'subdir' else sb + '/sub_moved'
+                shutil.rmtree(dst, ignore_errors=True)
+                os.rename(R + '/sub', dst)
+                _write(R + '/sub/g.txt', b'release %d: g (only sub replaced)' % n)
+                _write(R + '/sub/deep/h.txt', b'release %d: h (only sub replaced)' % n)
+                _write(R + '/sub/only_%d.txt' % n, b'sub, only in release %d (only sub replaced)' % n)
+            elif op == 'rewrite':
+                n += 1
+                for rel in ('f.txt', 'sub/g.txt'):
+                    _write(R + '/' + rel + '.tmp', b'rewritten in place %d ' % n + b'y' * n)
+                    os.replace(R + '/' + rel + '.tmp', R + '/' + rel)
+            else:
+                raise CheckFailure('unknown step %r' % (step,), kind='harness')
+            changed = True
+            ctx.count('tree_change_' + op)
+    finally:
+        os.chdir(top)
+    if changed:
+        ctx.nontrivial('seq:' + repr(case['seq']), sample=case)
+
+
+@st.composite
+def seq_st(draw):
+    roots = draw(st.lists(st.sampled_from(SEQ_ROOTS), min_size=1, max_size=2))
+    get = st.tuples(st.just('get'), st.sampled_from(roots), st.sampled_from(SEQ_NAMES)).map(list)
+    step = st.one_of(get, get, get, st.sampled_from(SEQ_OPS).map(lambda o: [o]))
+    # a request that succeeds, a change, then whatever follows
+    head = [['get', draw(st.sampled_from(roots)), draw(st.sampled_from(['f.txt', 'sub/g.txt', 'g.txt', 'sub/../f.txt']))], [draw(st.sampled_from(SEQ_OPS))]]
+    return {'seq': head + draw(st.lists(step, min_size=1, max_size=10))}
 
 
 def check_threaded(ctx, case):
@@ -285,13 +401,29 @@ def run(ctx):
             for dd in ('.\0.', '..\n', '\r..', '.\r.', '..\0', '.\n.', '\0..', '. .', '.\t.', '%2e%2e', '.%00.', '..%00'):
                 escapes += [dd + '/top.txt', dd + '/secret.txt', 'sub/' + dd + '/' + dd + '/top.txt', dd + '/root2/decoy.txt', dd + '\\top.txt']
             escapes += ['../root\\secret.txt', '..\\root\\secret.txt', '../root\\sub\\g.txt', '../root /secret.txt', '../root./secret.txt', 'sub/../../root\\secret.txt']
+            # files beside / above the root whose name is a proper string prefix of the name of the root directory (or of an ancestor of it)
+            prefix_named = ['../roo', '../r', '../ro', 'sub/../../roo', '..//roo', '/../roo', '..\\roo', './../roo', '../roo/', '../../roo', '../su', '../s', 'deep/../../su', '../../root/su',
+                            '../stat', '../$HOM', '../$', '../~nobody', '../pu', '../p', '../../srv:80', '../../sr', '../site', '../../site', '../root/../roo', '<base>/roo', '../../' + base.strip('/') + '/roo']
+            escapes += prefix_named
+            ctx.count('grid_decoy_file_named_like_a_prefix_of_the_root_name', len(prefix_named) * len(ROOTS) * 3)
             for rs in ROOTS:
                 for e in escapes:
                     for cwd in ('', 'site2', ''):
                         ctx.guarded(check_case, {'root': rs, 'name': e, 'cwd': cwd})
             ctx.count('escape_grid')
+        if ctx.shard == 0:
+            # grid: first requests with one root spelling, each kind of change, then every probe name with the same and with another spelling
+            for r1, r2 in zip(SEQ_ROOTS, SEQ_ROOTS[3:] + SEQ_ROOTS[:3]):
+                for ops in [[o] for o in SEQ_OPS if o != 'rollback'] + [['deploy', 'rollback'], ['deploy', 'deploy_swap'], ['deploy_swap', 'rollback', 'recreate'], ['subdir', 'deploy', 'rollback']]:
+                    seq = [['get', r1, 'f.txt'], ['get', r1, 'sub/g.txt'], ['get', r1, 'g.txt'], ['get', r1, 'deep/h.txt']]
+                    for o in ops:
+                        seq.append([o])
+                        seq += [['get', r1, nm] for nm in SEQ_NAMES] + [['get', r2, nm] for nm in SEQ_NAMES[:7]]
+                    ctx.guarded(check_sequence, {'seq': seq})
+            ctx.count('tree_change_grid')
         n = 4000 if ctx.tier == 'quick' else 30000
         ctx.hyp(case_st(), check_case, n)
+        ctx.hyp(seq_st(), check_sequence, 150 if ctx.tier == 'quick' else 1500, label='sequence')
     finally:
         cleanup()
 
@@ -300,6 +432,11 @@ def replay(ctx, case):
     if 'threaded' in case:
         try:
             return check_threaded(ctx, case)
+        finally:
+            cleanup()
+    if 'seq' in case:
+        try:
+            return check_sequence(ctx, case)
         finally:
             cleanup()
     try:
